@@ -226,9 +226,12 @@ class _InvWrapperBase(FnSpec):
         return inprogress_is_a_contextvar()
 
     def common_requires(self, c):
+        from .classes import rhas
         st, a = c.pre, c.a
         b0 = st.get("attr:ctx_binding", INPROG)
-        return [("python.param_names_distinct", distinct_names(st, a["param_names"].t)),
+        found, inst = self.find(st, a)
+        kls = attr(st, inst, "__class__")
+        return [("installed_only_on_classes_with_invariant_lists", z3.Implies(found, z3.And([rhas(st, kls, d) for d in ("__invariants__", "__invariants_on_call__", "__invariants_on_setattr__")]))),("python.param_names_distinct", distinct_names(st, a["param_names"].t)),
                 ("python.kwargs_is_a_dict", wf_dict(st, a["kwargs"].t)),
                 ("contextvar.binding_is_none_or_a_set", z3.Or(b0 == NONE, z3.And(b0 > 2, b0 < st.ctr)))]
 
@@ -298,9 +301,10 @@ class MethodInvWrapper(_InvWrapperBase):
         T.bind_defs(st.copy())
         self.pre, self.a = st.copy(), a
         self.found, self.inst = self.find(st, a)
+        from .classes import rget
         cls = attr(st, self.inst, "__class__")
         is_setattr = attr(st, a["func"].t, "__name__") == S("__setattr__")
-        self.L = z3.If(is_setattr, attr(st, cls, "__invariants_on_setattr__"), attr(st, cls, "__invariants_on_call__"))
+        self.L = z3.If(is_setattr, rget(st, cls, "__invariants_on_setattr__"), rget(st, cls, "__invariants_on_call__"))
         self.b0 = st.get("attr:ctx_binding", INPROG)
         self.reent = z3.And(self.b0 != NONE, z3.Select(st.get("set", self.b0), IDOF(self.inst)))
         self.t0 = st.time
@@ -337,7 +341,8 @@ class InitInvWrapper(_InvWrapperBase):
         T.bind_defs(st.copy())
         self.pre, self.a = st.copy(), a
         self.found, self.inst = self.find(st, a)
-        self.L = attr(st, attr(st, self.inst, "__class__"), "__invariants__")
+        from .classes import rget
+        self.L = rget(st, attr(st, self.inst, "__class__"), "__invariants__")
         self.b0 = st.get("attr:ctx_binding", INPROG)
         self.reent = z3.And(self.b0 != NONE, z3.Select(st.get("set", self.b0), IDOF(self.inst)))
         self.t0 = st.time
@@ -369,7 +374,10 @@ class NewInvWrapper(_InvWrapperBase):
         self.b0 = st.get("attr:ctx_binding", INPROG)
         self.R = NWRAP(a["args"].t, a["kwargs"].t, self.t0)
         # the class (and its invariant list) of the object __new__ returns is read from the heap after construction
-        st.assume(attr(st, attr(st, self.inst, "__class__"), "__invariants__") == CLS_INVS(self.inst))
+        from .classes import rget, rhas
+        kls = attr(st, self.inst, "__class__")
+        st.assume(rget(st, kls, "__invariants__") == CLS_INVS(self.inst), rhas(st, kls, "__invariants__"))
+        REG.assumptions.add("the class of the object returned by a wrapped __new__ has __invariants__ (the wrapper is only installed on such classes)")
 
     def loopL(self, c, which):
         return CLS_INVS(self.inst)
